@@ -87,6 +87,11 @@ def opOfJson (j : Json) : Except String Op := do
         pure (a, (← (fromJson? v : Except String Int)))
       pure (.find (← argNat j "cls") (← optKey j "pk") kw)
   | "proxy" => pure (.proxy (← argNat j "o"))
+  | "findVia" =>
+      let kw ← (← argArr j "kw").mapM fun p => do
+        let (a, v) ← pairOfJson p
+        pure (a, (← (fromJson? v : Except String Int)))
+      pure (.findVia (← argNat j "cls") (← intsOfJson (← j.getObjVal? "pk")) (← argNat j "via") kw)
   | "cascadeFail" => pure (.cascadeFail (← natsOfJson (← j.getObjVal? "children")))
   | "markRead" => pure (.markRead (← natsOfJson (← j.getObjVal? "os")) (← natsOfJson (← j.getObjVal? "attrs")))
   | _ => throw s!"unknown op kind {k}"
